@@ -15,9 +15,11 @@ package sched
 import (
 	"bytes"
 	"fmt"
+	"os"
 	"runtime"
 	"runtime/debug"
 	"strconv"
+	"strings"
 	"sync"
 	"time"
 
@@ -88,7 +90,7 @@ func (c *Controller) Run(fns []func(), choose func(step int, enabled []int) int)
 		c.BlockTimeout = 15 * time.Millisecond
 	}
 	if c.DeadlockTimeout == 0 {
-		c.DeadlockTimeout = 20 * time.Second
+		c.DeadlockTimeout = patience(20 * time.Second)
 	}
 	if c.MaxSteps == 0 {
 		c.MaxSteps = 400
@@ -274,4 +276,29 @@ func Explore(max int, run func(choose func(step int, enabled []int) int) (steps 
 		prefix = append(append([]int{}, made[:i]...), made[i]+1)
 	}
 	return schedules, false
+}
+
+// patience stretches the deadlock verdict on an overloaded machine (same rule as sut.Patience; sched does not
+// import sut).
+func patience(d time.Duration) time.Duration {
+	b, err := os.ReadFile("/proc/loadavg")
+	if err != nil {
+		return d
+	}
+	f := strings.Fields(string(b))
+	if len(f) == 0 {
+		return d
+	}
+	load, err := strconv.ParseFloat(f[0], 64)
+	if err != nil {
+		return d
+	}
+	per := load / float64(runtime.NumCPU())
+	if per < 1 {
+		return d
+	}
+	if per > 7 {
+		per = 7
+	}
+	return time.Duration(float64(d) * (1 + 2*per))
 }
